@@ -59,7 +59,7 @@ def gen_diff(rng, which):
             prog['by_same_opts'] = True
         return {'world': 'deco', 'part': 'diff', 'which': 'batcher', 'forms': ['class', 'func', 'deco'], 'base': prog}
     if which == 'buffer':
-        prog = fw.gen_program(rng, 'c08-nofail' if rng.random() < 0.5 else 'c08')
+        prog = fw.gen_program(rng, _w(rng, [('c08-nofail', 4), ('c08', 4), ('c08-flush', 3)]))
         for op in prog['ops']:
             if op['op'] == 'map_iter':           # keep it single-threaded: the schedule must have no choice in it
                 op['op'] = 'map_list'
